@@ -25,14 +25,17 @@ META = {
             'modules behind a real Dispatcher and the module attributes, the hardware stub, the reply and the view '
             'reconstructed from the update stream are compared with the expected abstract state after every step; '
             'seeded random longer histories over larger value sets are validated by TLC against Trace_Linked*.',
-    'note': 'Bounded: 2-3 members, 6 value tables, 4 limit kinds, one output with 1-3 controllers or two outputs with 1-2 '
-            'controllers each (plus one earlier and one later node alive in the same process); alphabets of 4-6 operations per '
-            'layout at full depth, wider alphabets / more layouts at depth 4-5 (thorough) and in the random traces; '
-            'client/driver path, class structure (same/mixin/derived), int/float datatype and driver style are picked '
-            'by the harness from the seed, not enumerated by TLC. Behaviours are not followed beyond a step that shows '
-            'a known finding. Trusted: TLC, the alpha/gamma tables in harness/props/c18.py, the hardware stubs. Direct '
-            'assignment to the derived float parameter, check hooks returning True and hardware that refuses an index '
-            'are outside the alphabet.',
+    'note': 'Bounded: 2-3 members with a clipping or a refusing hardware; 6 value tables written in 4 label styles, '
+            'index readable or write-only, 4 driver answers to an index write (echo / None / another valid index / '
+            'error); 4 limit kinds with default or configured start limits, inherited or explicit limit datatype, '
+            'custom or predefined (target) parameter name, optional user hook; one output with 1-3 controllers or two '
+            'outputs with 1-2 controllers each (plus an earlier and a later node alive in the same process). Alphabets '
+            'of 4-6 operations per layout at full depth, wider ones at depth 4-5 (thorough) and in the random traces; '
+            'client/driver path, class structure, int/float datatype, label style and driver style are picked by the '
+            'harness from the seed, not enumerated by TLC. Behaviours are not followed beyond a step that shows a '
+            'known finding. Trusted: TLC, the alpha/gamma tables in harness/props/c18.py, the hardware stubs. Direct '
+            'assignment to the derived float parameter, check hooks returning True, failing reads and the legacy Done '
+            'return value are outside the alphabet.',
     'tech': 'TLA+ specs (LinkedStruct, LinkedFloatEnum, LinkedLimits, LinkedControl) + TLC model checking; '
             'spec->code replay of all TLC behaviours; code->spec TLC trace validation',
     'ref': 'DESIGN.md section 5 C18',
@@ -361,28 +364,38 @@ class FloatEnumWorld(World):
 # ------------------------------------------------------------------ (3) limit parameters
 
 @lru_cache(None)
-def _lim_class(kind, structure, forbidden, dlo, dhi, integer):
-    from frappy.core import FloatRange, IntRange, Module, Parameter
+def _lim_class(kind, structure, forbidden, dlo, dhi, integer, pn, explicit):
+    """pn: name of the limited parameter: a custom one ('p') or the predefined 'target' of a Writable
+    explicit: the limit parameters are declared with their own datatype instead of inheriting it"""
+    from frappy.core import FloatRange, IntRange, Module, Parameter, Writable
+    from frappy.datatypes import LimitsType
     from frappy.errors import RangeError
     from frappy.params import Limit
     scale = 1 if integer else TICK
     dt = IntRange(dlo, dhi) if integer else FloatRange(dlo * scale, dhi * scale)
-    limits = {'minmax': ('p_min', 'p_max'), 'min': ('p_min',), 'max': ('p_max',), 'limits': ('p_limits',)}[kind]
-    base = {'p': Parameter('limited parameter', dt, readonly=False, default=dlo * scale)}
+    limits = {'minmax': ('_min', '_max'), 'min': ('_min',), 'max': ('_max',), 'limits': ('_limits',)}[kind]
+    base = {pn: Parameter('limited parameter', dt, readonly=False, default=dlo * scale)}
+    root = Module
+    if pn == 'target':
+        root = Writable
+        base['value'] = Parameter('value', FloatRange(), default=0)
 
-    def write_p(self, value):
+    def write(self, value):
         self.hw = value
         return value
-    base['write_p'] = write_p
+    base['write_' + pn] = write
     if forbidden:
-        def check_p(self, value):  # returns None: the automatic limit check still applies
+        def check(self, value):  # returns None: the automatic limit check still applies
             if value in [f * scale for f in forbidden]:
                 raise RangeError('value refused by the driver')
-        base['check_p'] = check_p
-    lims = {k: Limit() for k in limits}
+        base['check_' + pn] = check
+    if explicit:
+        lims = {pn + k: Limit(datatype=LimitsType(dt.copy()) if k == '_limits' else dt.copy()) for k in limits}
+    else:
+        lims = {pn + k: Limit() for k in limits}
     if structure == 'same':
-        return type('Lim_same', (Module,), dict(base, **lims))
-    basecls = type('LimBase', (Module,), base)
+        return type('Lim_same', (root,), dict(base, **lims))
+    basecls = type('LimBase', (root,), base)
     if structure == 'derived':
         return type('Lim_derived', (basecls,), lims)
     mixin = type('LimMixin', (), lims)
@@ -400,7 +413,21 @@ class LimitsWorld(World):
         structure = self.STRUCTURES[variant % 3] if not forbidden else self.STRUCTURES[1 + variant % 2]
         self.integer = bool(variant // 3 % 2)
         self.scale = 1 if self.integer else TICK
-        self.m = self.add('m', _lim_class(self.kind, structure, forbidden, self.dlo, self.dhi, self.integer))
+        self.pn = pn = ('p', 'target')[variant // 6 % 2]
+        # configured start values of the limit parameters (as in a cfg file), only where they are not the default
+        lo0, hi0 = init.get('cfg') or (init['exp']['lo'], init['exp']['hi'])
+        explicit = bool(variant // 12 % 2)     # then there is no inherited default: always configured
+        cfg = {}
+        if self.kind == 'limits':
+            if (lo0, hi0) != (self.dlo, self.dhi) or explicit:
+                cfg[pn + '_limits'] = {'value': (lo0 * self.scale, hi0 * self.scale)}
+        else:
+            if self.kind in ('minmax', 'min') and (lo0 != self.dlo or explicit):
+                cfg[pn + '_min'] = {'value': lo0 * self.scale}
+            if self.kind in ('minmax', 'max') and (hi0 != self.dhi or explicit):
+                cfg[pn + '_max'] = {'value': hi0 * self.scale}
+        self.m = self.add('m', _lim_class(self.kind, structure, forbidden, self.dlo, self.dhi, self.integer, pn, explicit),
+                          **cfg)
         self.m.hw = self.dlo * self.scale
         self.startup(self.m)
         self.connect()
@@ -410,10 +437,10 @@ class LimitsWorld(World):
 
     def limits(self, get):
         if self.kind == 'limits':
-            pair = get('p_limits')
+            pair = get(self.pn + '_limits')
             return (self.tick(pair[0]), self.tick(pair[1])) if isinstance(pair, (list, tuple)) else (NONE, NONE)
-        lo = self.tick(get('p_min')) if self.kind in ('minmax', 'min') else self.dlo
-        hi = self.tick(get('p_max')) if self.kind in ('minmax', 'max') else self.dhi
+        lo = self.tick(get(self.pn + '_min')) if self.kind in ('minmax', 'min') else self.dlo
+        hi = self.tick(get(self.pn + '_max')) if self.kind in ('minmax', 'max') else self.dhi
         return lo, hi
 
     def obs(self):
@@ -421,19 +448,19 @@ class LimitsWorld(World):
         self.drain()
         lo, hi = self.limits(lambda p: getattr(m, p))
         vlo, vhi = self.limits(lambda p: self.seen(m, p))
-        return {'lo': lo, 'hi': hi, 'val': self.tick(m.p), 'drv': self.tick(m.hw),
-                'vlo': vlo, 'vhi': vhi, 'vval': self.tick(self.seen(m, 'p'))}
+        return {'lo': lo, 'hi': hi, 'val': self.tick(getattr(m, self.pn)), 'drv': self.tick(m.hw),
+                'vlo': vlo, 'vhi': vhi, 'vval': self.tick(self.seen(m, self.pn))}
 
     def step(self, a, via):
         m, act = self.m, a['act']
         if act == 'p':
-            pname, value = 'p', a['v'] * self.scale
+            pname, value = self.pn, a['v'] * self.scale
         elif act == 'limits':
-            pname, value = 'p_limits', (a['a'] * self.scale, a['b'] * self.scale)
+            pname, value = self.pn + '_limits', (a['a'] * self.scale, a['b'] * self.scale)
             if via == 'client':
                 value = list(value)
         else:
-            pname, value = 'p_' + act, a['v'] * self.scale
+            pname, value = self.pn + '_' + act, a['v'] * self.scale
         if via == 'assign' and act != 'p':
             setattr(m, pname, value)
             ok = m.parameters[pname].readerror is None
@@ -754,8 +781,10 @@ def _random_trace(arg):
             return {'act': 'rf'}
     elif sub == 'LinkedLimits':
         kind = rnd.choice(('minmax', 'minmax', 'min', 'max', 'limits', 'limits'))
+        lo0, hi0 = rnd.choice(((0, 8), (0, 8), (2, 6), (1, 8), (0, 5), (6, 2) if kind != 'limits' else (3, 3)))
         init = {'act': 'init', 'kind': kind, 'dlo': 0, 'dhi': 8,
-                'forbidden': rnd.choice(([], [], [3], [2, 5]))}
+                'forbidden': rnd.choice(([], [], [3], [2, 5])),
+                'cfg': [lo0 if kind != 'max' else 0, hi0 if kind != 'min' else 8]}
         lim = {'minmax': ('min', 'max'), 'min': ('min',), 'max': ('max',), 'limits': ('limits',)}[kind]
 
         def pick():
